@@ -387,6 +387,22 @@ class Impl:
     def scorer(self, case):
         names = [f"n{i}" for i in range(case["n"])]
         mls = case["min_line_scores"]
+        # Twin entry point (added after C08-r9m1): the predictors build the scorer through
+        # `PAFScorer.from_config`; a deterministic ~40 % of the cases (chosen from the case's own content, so
+        # a replay takes the same route) go that way, the rest through the constructor.
+        import zlib
+        key = json.dumps([case["n"], case["edges"], case["stride"], case["n_points"], str(case["min_instance_peaks"])])
+        if zlib.crc32(key.encode()) % 5 < 2:
+            from omegaconf import OmegaConf
+            cfg = OmegaConf.create({"confmaps": {"part_names": names},
+                                    "pafs": {"edges": [[f"n{u}", f"n{v}"] for u, v in case["edges"]],
+                                             "output_stride": int(case["stride"])}})
+            self.via_config = getattr(self, "via_config", 0) + 1
+            return self.pg.PAFScorer.from_config(
+                cfg, max_edge_length_ratio=case["max_edge_length_ratio"],
+                dist_penalty_weight=case["dist_penalty_weight"], n_points=case["n_points"],
+                min_instance_peaks=case["min_instance_peaks"],
+                min_line_scores=0.25 if mls == "pick" else mls)
         return self.pg.PAFScorer(
             part_names=names, edges=[(f"n{u}", f"n{v}") for u, v in case["edges"]],
             pafs_stride=case["stride"], max_edge_length_ratio=case["max_edge_length_ratio"],
